@@ -121,6 +121,18 @@ var reuseContexts = []litContext{
 	{"prepend-twice-first-result", func(q string) string {
 		return "{{ a = [\"1\", \"2\", \"3\"] }}{{ b = a.prepend(" + q + ") }}{{ c = a.prepend(\"<y>\") }}[[{{ b[0] }}]]"
 	}, func(l string) string { return l }, false},
+	// a loop variable named like the variable that holds the literal vanishes with its loop
+	{"loop-variable-of-the-same-name", func(q string) string { return "{{ x = " + q + " }}@each(x in [\"z\", \"<y>\"]){{ x }}@end[[{{ x }}]]" }, func(l string) string { return l }, false},
+	{"nested-loops-of-the-same-name", func(q string) string {
+		return "@each(x in [" + q + "])@each(x in [\"<i>\", \"z\"]){{ x }}@end[[{{ x }}]]@end"
+	}, func(l string) string { return l }, false},
+	{"for-variable-of-the-same-name", func(q string) string {
+		return "{{ x = " + q + " }}@for(x = \"<f>\"; x; x = \"\")f@end[[{{ x.raw() }}]]"
+	}, func(l string) string { return l }, true},
+	// the literal is the taken arm of a ternary whose other arm is a ternary written without parentheses
+	{"ternary-arm-before-chain", func(q string) string { return "[[{{ 1 ? " + q + " : 0 ? \"x\" : \"y\" }}]]" }, func(l string) string { return l }, false},
+	{"ternary-arm-before-chain-raw", func(q string) string { return "[[{{ (true ? " + q + " : false ? \"x\" : \"y\").raw() }}]]" }, func(l string) string { return l }, true},
+	{"ternary-arm-inside-chain", func(q string) string { return "{{ v = 0 ? \"no\" : 1 ? " + q + " : \"y\" }}[[{{ v }}]]" }, func(l string) string { return l }, false},
 	{"reverse-then-original", func(q string) string {
 		return "{{ a = [" + q + ", \"<z>\", \"3\"] }}{{ a.reverse().len() }}[[{{ a[0] }}]]"
 	}, func(l string) string { return l }, false},
